@@ -50,7 +50,17 @@ QUERIES = [
     "SELECT DISTINCT ?p WHERE { { ?s ?p ?o } UNION { GRAPH ?g { ?s ?p ?o } } } ORDER BY ?p LIMIT 3",
     "SELECT * WHERE { ?s ?p ?o MINUS { ?s <http://ex.org/ns#q> ?x } }",
     "SELECT ?s WHERE { ?s ?p ?o FILTER EXISTS { GRAPH ?g { ?s ?p2 ?o2 } } }",
+    # dataset clauses: a graph of the dataset, and a document that is not in the dataset but can be dereferenced (a file shipped with the
+    # harness; SPARQL_LOAD_GRAPHS is on by default) - reading it must not leave it behind in the queried dataset
+    "SELECT * FROM <http://ex.org/g1> WHERE { ?s ?p ?o }",
+    "SELECT * FROM <%(doc)s> WHERE { ?s ?p ?o }",
+    "SELECT * FROM <%(doc)s> FROM <http://ex.org/g1> WHERE { ?s ?p ?o }",
+    "SELECT * FROM NAMED <%(doc)s> WHERE { GRAPH ?g { ?s ?p ?o } }",
+    "ASK FROM <%(doc)s> { ?s ?p \"loaded\" }",
 ]
+import pathlib as _pathlib  # noqa: E402
+_DOC = (_pathlib.Path(__file__).resolve().parent.parent / "data" / "from_doc.ttl").as_uri()
+QUERIES = [q % {"doc": _DOC} if "%(doc)s" in q else q for q in QUERIES]
 S1, P1 = URIRef("http://ex.org/s1"), URIRef("http://ex.org/p")
 
 
